@@ -1,4 +1,5 @@
 import ALock.Lemmas.RwLockWake
+import ALock.Atomic.Calls
 
 /-!
 # C06 — RwLock: no lost wake-up on any release, downgrade, upgrade or cancellation
@@ -263,3 +264,13 @@ example :
     s.m.woken = [] ∧ pendingPolled s = [] ∧ s.state = 0 ∧ s.m.st = 0 := by decide
 
 end ALock.RwLock
+
+/-! ## Where the notifications are sent (generated site table) -/
+
+namespace ALock.Atomic.Calls
+
+/-- every operation of `src/rwlock/raw.rs` on the state word and the inner mutex and every `listen` /
+`notify` on `no_writer` / `no_readers`, function by function in source order (generated table) -/
+theorem C06_calls_ok : fileShapes "src/rwlock/raw.rs" = rwlockRawExpected := by decide
+
+end ALock.Atomic.Calls
